@@ -100,6 +100,7 @@ def main(tier, seed, replay):
     atom = ("C02", "C02mono")
     tr = k.validate_profile("core2", 1500 if thorough else 100, extra_monitors=atom, extra_fields=("enabled",))
     k.validate_profile("rates", 1000 if thorough else 80, extra_monitors=atom)
+    k.validate_profile("split", 1500 if thorough else 100, extra_monitors=atom, extra_fields=("enabled",))
     k.selftest(tr)
     return k.finish(assumptions=[
         "chunk sizes, header sizes and message lengths are read from the wire by the harness's decoder; the relation groups are computed by the driver from the relations it created (connected components of the relations whose source is replicated)",
